@@ -593,6 +593,9 @@ func bridgePrelude(body string) string {
 			}
 			seen[m[1]] = true
 			fmt.Fprintf(&sb, "(assert (= (%s (_ bv%s %d)) %s))\n", b2i, m[1], w, m[1])
+			if strings.Contains(body, "("+i2b+" ") {
+				fmt.Fprintf(&sb, "(assert (= (%s %s) (_ bv%s %d)))\n", i2b, m[1], m[1], w)
+			}
 		}
 		for _, v := range []string{"0", "1"} {
 			if !seen[v] {
